@@ -11,7 +11,7 @@ use jbonsai::Engine;
 
 use crate::alloc_count::{installed, reset_thread_peak, thread_peak_since};
 use crate::bundled::bundled_bytes;
-use crate::faults::{apply_fault, index_voice, replace_number, truncation_points, NUMBER_REPLACEMENTS};
+use crate::faults::{apply_fault, index_voice, replace_number, text_spans, truncation_points, NUMBER_REPLACEMENTS, STRUCTURAL_CHARS};
 use crate::runner::{DynProp, Failure, Prop, Report, Session, Tier};
 use crate::tape::Tape;
 use crate::util::{catch, hash64};
@@ -189,10 +189,9 @@ impl Prop for Faulted {
     }
 }
 
-const ENUM_RULE: &str = "deterministic single-fault grid on the bundled voice and 20 fixed generated voices: every header number x 11 replacements; every header line deleted and duplicated; truncation at every section/block boundary +-1; plus the unmodified file (must load). Non-trivial: loader returned Err; distinct by (base, fault)";
+const ENUM_RULE: &str = "deterministic single-fault grid on the bundled voice and 20 fixed generated voices: every header number x 11 replacements; every header line deleted and duplicated; truncation at every section/block boundary +-1; every single-character substitution (17 structural characters and the 8 one-bit errors) at every position of the header, tree and window text (header only on the bundled voice); plus the unmodified file (must load). Non-trivial: loader returned Err; distinct by (base, fault)";
 
-fn run_enum_case(s: &mut Session, base: usize, desc: String, bytes: &[u8], must_load: bool) -> bool {
-    let d = json!({ "base": base, "fault": desc });
+fn eval_enum_case(base: usize, desc: &str, bytes: &[u8], must_load: bool) -> Result<LoadOutcome, Failure> {
     note_inflight(&json!({ "kind": "enum", "base": base, "fault": desc }), bytes);
     let r = check_load(bytes).and_then(|o| {
         if must_load {
@@ -201,6 +200,11 @@ fn run_enum_case(s: &mut Session, base: usize, desc: String, bytes: &[u8], must_
         Ok(o)
     });
     clear_inflight();
+    r
+}
+
+fn record_enum_case(s: &mut Session, base: usize, desc: String, bytes: &[u8], r: Result<LoadOutcome, Failure>) -> bool {
+    let d = json!({ "base": base, "fault": desc });
     match r {
         Ok(o) => {
             let mut rep = Report::new();
@@ -217,6 +221,11 @@ fn run_enum_case(s: &mut Session, base: usize, desc: String, bytes: &[u8], must_
             !s.failure("fault-grid", &f, body)
         }
     }
+}
+
+fn run_enum_case(s: &mut Session, base: usize, desc: String, bytes: &[u8], must_load: bool) -> bool {
+    let r = eval_enum_case(base, &desc, bytes, must_load);
+    record_enum_case(s, base, desc, bytes, r)
 }
 
 fn save_bytes(s: &Session, bytes: &[u8]) -> String {
@@ -278,8 +287,79 @@ fn extra(s: &mut Session) {
             }
         }
     }
+    // every single-character substitution (structural characters and all 8 one-bit errors) at every
+    // position of the text sections: all of them on small generated voices, header only (and a
+    // stride of it in the quick tier) on the bundled voice, whose tree text is a megabyte
+    let char_bases: Vec<usize> = if s.tier == Tier::Quick { vec![0, 1, 2, 3] } else { (0..nbases).collect() };
+    let mut chars = 0u64;
+    for base in char_bases {
+        let bytes = base_voice(base);
+        let Some(idx) = index_voice(&bytes) else { continue };
+        let stride = if base == 0 { s.tier.pick(5, 1) } else { 1 };
+        let mut k = 0usize;
+        let mut jobs: Vec<(&'static str, usize, u8)> = Vec::new();
+        for (kind, a, b) in text_spans(&bytes, &idx) {
+            if base == 0 && kind != "header" {
+                continue;
+            }
+            for p in a..b {
+                let orig = bytes[p];
+                let subs = STRUCTURAL_CHARS.iter().copied().chain((0..8).map(|bit| orig ^ (1u8 << bit)));
+                for c in subs {
+                    if c == orig {
+                        continue;
+                    }
+                    k += 1;
+                    if k % stride == 0 {
+                        jobs.push((kind, p, c));
+                    }
+                }
+            }
+        }
+        // the loads are independent: evaluate them on all cores, record in order
+        let nthreads = std::thread::available_parallelism().map(|n| n.get()).unwrap_or(4).min(16);
+        let chunk = jobs.len().div_ceil(nthreads).max(1);
+        let desc_of = |j: &(&'static str, usize, u8)| format!("{}-char@{}:{:#04x}->{:#04x}", j.0, j.1, bytes[j.1], j.2);
+        let results: Vec<Vec<Result<LoadOutcome, Failure>>> = std::thread::scope(|sc| {
+            let hs: Vec<_> = jobs
+                .chunks(chunk)
+                .map(|part| {
+                    let bytes = &bytes;
+                    let desc_of = &desc_of;
+                    sc.spawn(move || {
+                        let mut f = bytes.clone();
+                        part.iter()
+                            .map(|j| {
+                                let orig = f[j.1];
+                                f[j.1] = j.2;
+                                let r = eval_enum_case(base, &desc_of(j), &f, false);
+                                f[j.1] = orig;
+                                r
+                            })
+                            .collect::<Vec<_>>()
+                    })
+                })
+                .collect();
+            hs.into_iter().map(|h| h.join().unwrap_or_default()).collect()
+        });
+        for (j, r) in jobs.iter().zip(results.into_iter().flatten()) {
+            let mut f = Vec::new();
+            if r.is_err() {
+                f = bytes.clone();
+                f[j.1] = j.2;
+            }
+            chars += 1;
+            // (the byte count only feeds a ratio metric; the faulty file has the base's length)
+            let b: &[u8] = if r.is_err() { &f } else { &bytes };
+            if !record_enum_case(s, base, desc_of(j), b, r) {
+                return;
+            }
+        }
+    }
+    total += chars;
     s.set_exhaustive("fault-grid", true);
     s.extra.insert("enumerated_single_faults".into(), json!(total));
+    s.extra.insert("enumerated_single_character_substitutions".into(), json!(chars));
     // known findings that live in a dependency: replay their committed inputs
     let dir = crate::util::verif_dir().join("replays").join("known");
     if let Ok(rd) = std::fs::read_dir(&dir) {
